@@ -583,6 +583,10 @@ func c16TV(a Args, res *Result, t2g string, dir string, progs []*c16Prog, per, c
 			stats["with_include"]++
 			continue
 		}
+		if c16HasByteArray(p.Mod) {
+			stats["with_byte_array"]++
+			continue
+		}
 		var enumVals []string
 		for _, e := range o.Enums {
 			var vs []string
@@ -688,12 +692,30 @@ func c16CompileClass(out string) string {
 
 var c16ByteArrayErr = regexp.MustCompile(`cannot use &?st\.\w+ \((value|variable) of type \*?\[\d+\]u?int8\) as \*?\[\]u?int8 value in argument to (readBuf|buf)\.(Read|Write)Slice(Int8|Uint8)`)
 
-// the codegen gap known since the design round: a fixed array of bytes
+// fixed arrays of bytes (did not compile before the repair): SimpleList on the wire for signed bytes
 func c16GapProgram() *c16Prog {
-	m := &c16Module{Name: "TvGap", Decls: []c16Decl{{S: &c16Struct{Name: "Blob", Mb: []c16Member{
+	m := &c16Module{Name: "TvBytes", Decls: []c16Decl{{S: &c16Struct{Name: "Blob", Mb: []c16Member{
 		{Tag: 0, Req: true, Ty: &c16Ty{K: "byte"}, Key: "raw", ArrLen: 4},
-		{Tag: 1, Req: false, Ty: &c16Ty{K: "byte", Unsigned: true}, Key: "uraw", ArrLen: 2}}}}}}
+		{Tag: 1, Req: false, Ty: &c16Ty{K: "byte", Unsigned: true}, Key: "uraw", ArrLen: 2},
+		{Tag: 2, Req: false, Ty: &c16Ty{K: "byte"}, Key: "o", ArrLen: 3},
+		{Tag: 3, Req: true, Ty: &c16Ty{K: "byte", Unsigned: true}, Key: "r2", ArrLen: 1},
+		{Tag: 4, Req: false, Ty: &c16Ty{K: "string"}, Key: "s", Def: `"x"`}}}}}}
 	return &c16Prog{Idx: -1, Mod: m, Text: c16Join(m.toks(), nil, 0)}
+}
+
+// Codec/GenCodec.v models fixed arrays as LIST only: programs with a fixed array of bytes are validated by the Go
+// monitors (declarations against the IDL, round trip, calls), not by the model
+func c16HasByteArray(m *c16Module) bool {
+	for _, d := range m.Decls {
+		if d.S != nil {
+			for _, mb := range d.S.Mb {
+				if mb.ArrLen > 0 && mb.Ty.K == "byte" {
+					return true
+				}
+			}
+		}
+	}
+	return false
 }
 
 // a fixed program that meets every declaration form and the sites of the generator defects repaired so far
@@ -891,9 +913,41 @@ func c16BackEnd(a Args, rng *rand.Rand, res *Result, cases []c16Case, replay *c1
 		c16TV(a, res, t2g, filepath.Join(base, fmt.Sprintf("tv%d", b)), progs, per, calls, &off)
 		os.RemoveAll(filepath.Join(base, fmt.Sprintf("tv%d", b)))
 	}
+	// -module-cycle lays the packages out by file and module: a dependent pair must still compile (compile only)
+	{
+		dep := c16TvProgram(rng, 9000, c16GenOpt{Compilable: true, Small: true}, nil)
+		for !c16HasTypes(dep.Mod) {
+			dep = c16TvProgram(rng, 9000, c16GenOpt{Compilable: true, Small: true}, nil)
+		}
+		use := c16TvProgram(rng, 9001, c16GenOpt{Compilable: true, Small: true, IdBase: 100}, dep)
+		c16CompileOnly(res, t2g, filepath.Join(base, "tvcycle"), []*c16Prog{dep, use}, []string{"-module-cycle"})
+	}
 	res.Stats["tv_wall_s"] = time.Since(t1).Seconds()
 	res.Evaluations += idx
 	c16Bindings(a, res, t2g, filepath.Join(base, "bind"))
+}
+
+// c16CompileOnly: the last program (which includes the others) through tars2go with the flags, then go build
+func c16CompileOnly(res *Result, t2g string, dir string, progs []*c16Prog, flags []string) {
+	os.MkdirAll(dir, 0o755)
+	c16WriteModule(dir)
+	for _, p := range progs {
+		os.WriteFile(filepath.Join(dir, p.Mod.Name+".tars"), []byte(p.Text), 0o644)
+	}
+	last := progs[len(progs)-1]
+	last.Flags = flags
+	args := append(append([]string{"-outdir", "gen", "-module", "c16tv"}, flags...), last.Mod.Name+".tars")
+	out, code, to := c16Run(dir, 30000, nil, t2g, args...)
+	tc := c16TvCase(last)
+	tc.Msg = strings.Join(flags, " ") + " (includes " + progs[0].Mod.Name + ".tars: " + c16Trunc(progs[0].Text, 600) + ")"
+	if to || code != 0 {
+		res.Failures = append(res.Failures, Failure{Sig: "tars2go/gen/rejects-valid-program/" + c16DiagClass(out), Desc: fmt.Sprintf("tars2go %s exits %d (timeout %v) on a valid program: %s", strings.Join(flags, " "), code, to, c16Trunc(c16LastLine(out), 300)), Replay: tc})
+		return
+	}
+	o, c, _ := c16Run(dir, 600000, c16GoEnv(), "go", "build", "./gen/...")
+	if c != 0 {
+		res.Failures = append(res.Failures, Failure{Sig: "tars2go/gen/does-not-compile/" + c16CompileClass(o), Desc: fmt.Sprintf("the Go code generated with %s for a valid program does not compile: %s", strings.Join(flags, " "), c16Trunc(c16FirstError(o), 400)), Replay: tc})
+	}
 }
 
 // replay of a translation-validation finding: the program text alone (declarations are recovered from the
